@@ -78,6 +78,13 @@ fn exercise_expression(env: &Environment, src: &str, ctx: &Value, cc: &mut Child
 
 const FRAGS: &[&str] = &["{{", "{%", "{#", "}}", "%}", "#}", "-", "+", "'", "\"", "\\", "\n", " ", "1", "x", "é", ".", "(", ")", "[", "]", "|", ":", "="];
 
+/// pieces of string-literal bodies: every escape form the lexer knows, well-formed, truncated and out
+/// of range, surrogate halves in both roles, and plain characters between them
+const ESCAPES: &[&str] = &[
+    "\\n", "\\\\", "\\'", "\\\"", "\\x41", "\\x", "\\xZ", "\\xff", "\\u0041", "\\ud83d", "\\ude00", "\\ud800", "\\udbff", "\\udc00", "\\udfff", "\\uffff", "\\u", "\\u12", "\\u{41}", "\\U0001f600", "\\0", "\\7", "\\777", "\\8", "\\q", "a",
+    "\u{e9}", "\\",
+];
+
 fn ranked_string(mut n: u64, alphabet: &[&str]) -> String {
     // ranks all strings of length 0,1,2,... in order
     let base = alphabet.len() as u64;
@@ -353,6 +360,15 @@ fn run_case(family: &str, n: u64, cc: &mut ChildCtx) {
         "accumulate" => {
             exercise_template(env, &acc_case(n), &ctx, cc);
         }
+        "escapes" => {
+            let body = ranked_string(n, ESCAPES);
+            for q in ['\'', '"'] {
+                let lit = format!("{}{}{}", q, body, q);
+                exercise_template(env, &format!("{{{{ {} }}}}", lit), &ctx, cc);
+                exercise_template(env, &format!("{{% set a = {} %}}{{{{ a|length }}}}{{% include {} ignore missing %}}", lit, lit), &ctx, cc);
+                exercise_expression(env, &lit, &ctx, cc);
+            }
+        }
         "programs" => {
             thread_local! { static G: gen::Gen = gen::Gen::new(gen::Opts { depth: 2, max_programs: u64::MAX, multi_template: false, loop_controls: true }); }
             let src = G.with(|g| g.program(n).source());
@@ -377,6 +393,7 @@ fn describe(family: &str, n: u64) -> String {
         }
         "depth" => format!("{} depth {}", DEPTH_SHAPES[(n as usize) / DEPTHS.len()], DEPTHS[(n as usize) % DEPTHS.len()]),
         "programs" => gen::Gen::new(gen::Opts { depth: 2, max_programs: u64::MAX, multi_template: false, loop_controls: true }).program(n).source(),
+        "escapes" => format!("string literal body {:?}", ranked_string(n, ESCAPES)),
         "accumulate" => format!("{} x{} :: {}", ACC_STEPS[(n as usize) / ACC_COUNTS.len()].0, ACC_COUNTS[(n as usize) % ACC_COUNTS.len()], acc_case(n)),
         _ => String::new(),
     }
@@ -475,6 +492,8 @@ pub fn main(args: Args) -> i32 {
     // depth probes: opt-level 0 build (largest frames), both stacks; thorough adds the release build
     shards.extend(crash::shards_for("depth", ndepth, 1, "2m", "debug"));
     shards.extend(crash::shards_for("depth", ndepth, 1, "main", "debug"));
+    let nesc = ranked_total(if quick { 3 } else { 4 }, ESCAPES.len() as u64);
+    shards.extend(crash::shards_for("escapes", nesc, 20_000, "2m", "release"));
     let nacc = (ACC_STEPS.len() * ACC_COUNTS.len()) as u64;
     shards.extend(crash::shards_for("accumulate", nacc, 1, "2m", "debug"));
     shards.extend(crash::shards_for("accumulate", nacc, 1, "2m", "release"));
@@ -499,6 +518,7 @@ pub fn main(args: Args) -> i32 {
     acc.count("cases_ops", nops);
     acc.count("cases_depth", ndepth * if quick { 2 } else { 4 });
     acc.count("cases_programs", nprog);
+    acc.count("cases_escapes", nesc);
     acc.count("cases_accumulate", nacc * if quick { 2 } else { 4 });
     // distinct non-trivial: cases that got as far as rendering or a render error (not a load error)
     let nontrivial = res.outcomes.get("rendered").copied().unwrap_or(0) + res.outcomes.get("render error").copied().unwrap_or(0) + res.outcomes.get("expr ok").copied().unwrap_or(0) + res.outcomes.get("expr error").copied().unwrap_or(0);
@@ -545,7 +565,7 @@ pub fn main(args: Args) -> i32 {
             level: "exploration",
             tier: args.tier,
             seed: args.seed,
-            rule: format!("supervised child processes (RLIMIT_AS 4 GiB, per-case wall cap, panics caught, deaths attributed to the published case): (1) every string of <= {} fragments over a 24-fragment alphabet as template and as expression; (2) every sequence of <= {} tags over 38 tags with canned arguments; (3) every built-in and contrib filter/test/method x 8 receivers and every function, x every argument tuple of arity <= {} over a 14-value boundary alphabet; (4) 12 operators + 11 argument-taking built-ins over all pairs of the edge value alphabet; (5) 31 chain/nesting shapes x depths 150/151/2000/20000/200000 on the main thread and a 2 MiB thread in an opt-level-0 build (thorough: also the checked-release build); (6) every program of the depth-2 generator space with loop controls. Each case: load, render, format the error in five forms. Oracle: no panic, no signal, no abort. distinct non-trivial = cases that reached evaluation (rendered or failed at run time)", if quick { 4 } else { 5 }, if quick { 3 } else { 4 }, barity),
+            rule: format!("supervised child processes (RLIMIT_AS 4 GiB, per-case wall cap, panics caught, deaths attributed to the published case): (1) every string of <= {} fragments over a 24-fragment alphabet as template and as expression; (2) every sequence of <= {} tags over 38 tags with canned arguments; (3) every built-in and contrib filter/test/method x 8 receivers and every function, x every argument tuple of arity <= {} over a 14-value boundary alphabet; (4) 12 operators + 11 argument-taking built-ins over all pairs of the edge value alphabet; (5) 31 chain/nesting shapes x depths 150/151/2000/20000/200000 on the main thread and a 2 MiB thread in an opt-level-0 build (thorough: also the checked-release build); (6) every program of the depth-2 generator space with loop controls; (7) every string literal (both quote styles, as output, as assignment + include name, and as expression) whose body is a sequence of at most {} pieces out of 28 (every escape form well-formed, truncated and out of range, surrogate halves in both roles, plain and multi-byte characters, a trailing backslash); (8) 22 run-time value chains built by loops (33 / 1000 / 30 000 iterations). Each case: load, render, format the error in five forms. Oracle: no panic, no signal, no abort. distinct non-trivial = cases that reached evaluation (rendered or failed at run time)", if quick { 4 } else { 5 }, if quick { 3 } else { 4 }, barity, if quick { 3 } else { 4 }),
             exhaustive: true,
             bound: json!({"fragments": FRAGS, "tags": TAGS, "args": ARGS, "receivers": RECEIVERS, "depth_shapes": DEPTH_SHAPES, "depths": DEPTHS}),
             assumptions: vec!["a timeout is recorded as inconclusive, not as a crash".into(), "byte strings longer than the fragment bound and arguments off the boundary alphabet are not explored".into()],
